@@ -99,6 +99,13 @@ CHECKS = {
         "Lattice only. Positions compared to 1e-5 (scipy minimisation tolerance).",
         "DESIGN.md 5 C17",
     ),
+    "C18": (
+        "exploration",
+        "exhaustive enumeration of finite query tables on the real finders (spheres with radii between consecutive vertex distances, default radius at 0 / 0.4 TOL / 3 TOL, planes through vertex triples displaced likewise, core/shell x start/end of round shapes) against brute-force search; re-orientation of 6 convex hexahedra from all 48 corner numberings x 5 viewpoint/ceiling pairs",
+        "Finder result == brute-force set, both directions; re-oriented block has the same 8 points, one and the same numbering for all 48 inputs, is right-handed, its front side faces the observer and its top side the ceiling more than any other side.",
+        "Query tables, not the continuum. Observers lie in front of a side (not on a body diagonal), as the docstring requires.",
+        "DESIGN.md 5 C18",
+    ),
     "C02": (
         "model_checking",
         "stateless model checking of the implementation: choice-point explorer over set iteration orders (iterative deviation bounding) x exhaustive insertion orders / corner numberings / chop placements of small lattice assemblies, edge-family reference model",
